@@ -378,6 +378,37 @@ func inputs(k cs, quick bool, f func(v []*big.Int)) (exhaustive bool) {
 		}
 	}
 	rec(0)
+	// dividers: the GMW divider starts from a reciprocal table indexed by the divisor's top 8 bits, so every
+	// table entry is a separate case: every divisor 1..255 (their normalised forms cover all entries) and the
+	// same patterns shifted to the top of the operand, against dividends that give the longest quotients
+	if (k.Op == "udiv" || k.Op == "umod" || k.Op == "idiv" || k.Op == "imod") && len(k.W) == 2 && k.W[0] > 8 && k.W[1] > 8 {
+		w0, w1 := k.W[0], k.W[1]
+		vw0 := w0
+		if k.Op[0] == 'i' {
+			vw0-- // keep the sign bit clear: the signed dividers negate and call the unsigned one
+		}
+		max := new(big.Int).Sub(new(big.Int).Lsh(big.NewInt(1), uint(vw0)), big.NewInt(1))
+		divs := []*big.Int{max, new(big.Int).Sub(max, big.NewInt(1)), new(big.Int).Lsh(big.NewInt(1), uint(vw0-1)),
+			new(big.Int).Rsh(new(big.Int).Mul(max, big.NewInt(0xaa)), 8)}
+		step := 1
+		if quick {
+			step = 3
+		}
+		for d := 1; d <= 255; d += step {
+			for _, sh := range []int{0, w1 - 9} {
+				if sh < 0 || (k.Op[0] == 'i' && sh > 0 && sh+8 >= w1) {
+					continue
+				}
+				dv := new(big.Int).Lsh(big.NewInt(int64(d)), uint(sh))
+				if dv.BitLen() > w1 || (k.Op[0] == 'i' && dv.BitLen() >= w1) {
+					continue
+				}
+				for _, a := range divs {
+					f([]*big.Int{a, dv})
+				}
+			}
+		}
+	}
 	return false
 }
 
@@ -602,6 +633,14 @@ func work(ctx *runner.Ctx) {
 						add(cs{Op: op.name, W: []int{3, wv}, WZ: op.wz([]int{3, wv}, 0)[0], Target: t})
 					}
 				}
+			}
+		}
+	}
+	if ctx.Quick() {
+		// the GMW divider's refinement count steps where the width passes 7*2^k bits: both sides of each step
+		for _, wv := range []int{14, 15, 28, 29, 56, 57, 111, 112, 113} {
+			for _, name := range []string{"udiv", "umod"} {
+				add(cs{Op: name, W: []int{wv, wv}, WZ: wv, Target: "GMW"})
 			}
 		}
 	}
